@@ -85,6 +85,9 @@ func c20FailedOne(c *core.Ctx, dir string, k c20FailedCase) {
 }
 
 func c20FailedRun(c *core.Ctx) {
+	if !c20Only("failed-upgrade") {
+		return
+	}
 	dir := core.Scratch("c20failed")
 	var idx int64
 	for _, st := range c20FailedStmts {
